@@ -220,5 +220,14 @@ def run(ctx):
         c03.run(ctx, prefix="C11", set_explanation=False)
     except Unrecognised as e:
         ctx.unrecognised(e.rule, e.msg, e.fn, e.line)
+    # the invariance is a statement about the *whole* enumeration: an unscoped evaluator must cover the whole position
+    # line (a truncated walk drops deals that are not closed under suit relabelling) — C04's plumbing / successor rules
+    try:
+        from rules import c04, evalmodel
+        M = evalmodel.get(F)
+        c04.rule_plumbing(ctx, M, prefix="C11")
+        c04.rule_successor(ctx, M, prefix="C11")
+    except Unrecognised as e:
+        ctx.unrecognised(e.rule, e.msg, e.fn, e.line)
     ctx.assume("the deck / odometer order only permutes the multiset of deals (C02 decides necessary conditions of the enumeration, not this)")
     ctx.assume("relabelling suits maps ranges to ranges (HandRange is keyed by normalised pairs, C14)")
